@@ -375,6 +375,23 @@ def run(p, led, tier):
                 attr = n.targets[0].value.attr
                 if attr in ("templates", "filters"):
                     continue
+                # only a store of *rendered text* is a memo of renderings (a usage counter or a statistics table is not):
+                # the stored value mentions a rendering call, a `.sequence`, or a local bound to one
+                rnames = {"translate"} | {m_.name for m_ in render_fns}
+
+                def renders(e_, depth=0):
+                    for x in ast.walk(e_):
+                        if isinstance(x, ast.Attribute) and x.attr == "sequence":
+                            return True
+                        if isinstance(x, ast.Call) and isinstance(x.func, ast.Attribute) and x.func.attr in rnames:
+                            return True
+                        if isinstance(x, ast.Name) and depth < 3:
+                            for a in ast.walk(g.node):
+                                if isinstance(a, ast.Assign) and len(a.targets) == 1 and isinstance(a.targets[0], ast.Name) and a.targets[0].id == x.id and a.value is not e_ and renders(a.value, depth + 1):
+                                    return True
+                    return False
+                if not renders(n.value):
+                    continue
                 n_cache += 1
                 keyexpr = n.targets[0].slice
                 kdef = keyexpr
@@ -398,14 +415,30 @@ def run(p, led, tier):
 
 
 
+def _self_reachable(res, g):
+    """g can be entered again while it is running (it lies on a cycle of the call graph; calls made by nested callbacks count)"""
+    seen, todo = set(), [h for h, _ in res.callees(g)]
+    while todo:
+        h = todo.pop()
+        if h is g:
+            return True
+        if h.key in seen:
+            continue
+        seen.add(h.key)
+        todo.extend(x for x, _ in res.callees(h))
+    return False
+
+
 def _taint_rules(p, led, rib, tr):
     """C12-R1 / C12-R2 decided by the taint interpretation of translate() (see c12taint)"""
     from . import c12taint as tt
     mrna_cls = next((ci for lst in p.classes.values() for ci in lst if ci.module is rib.module and ci.name == "mRNA"), None)
     if mrna_cls is None:
         raise AnchorError("mRNA class not found next to Ribosome")
+    res_ = _CTX.get("res") or Resolver(p)
+    recursive = {g.qual for g in rib.methods.values() if any(h is g for h in res_.reachable_from(g) if h is not None) and _self_reachable(res_, g)}
     try:
-        runs = {False: tt.interpret(p, rib, tr, mrna_cls, False), True: tt.interpret(p, rib, tr, mrna_cls, True)}
+        runs = {False: tt.interpret(p, rib, tr, mrna_cls, False, recursive=recursive), True: tt.interpret(p, rib, tr, mrna_cls, True, recursive=recursive)}
     except tt.Imprecise as e:
         raise AnchorError(f"taint interpretation of Ribosome.translate: {e}")
     allruns = runs[False] + runs[True]
